@@ -28,6 +28,18 @@ use crate::{
 };
 
 pub fn run_zero_rtt(seed: u64, opts: &SimOpts) -> CaseOut {
+    run_zero_rtt_with(seed, opts, false)
+}
+
+/// Second directed history (`rejected`): the client writes on an early stream, the server rejects
+/// early data, the client opens a fresh stream - which gets the early stream's id - and drops its
+/// stale early handle in the middle of writing the fresh one. The fresh stream must be unaffected:
+/// every write succeeds and the server reads exactly what was written to it.
+pub fn run_zero_rtt_rejected(seed: u64, opts: &SimOpts) -> CaseOut {
+    run_zero_rtt_with(seed, opts, true)
+}
+
+fn run_zero_rtt_with(seed: u64, opts: &SimOpts, rejected: bool) -> CaseOut {
     let plan = Arc::new(Plan::scripted(seed, "zero_rtt_open"));
     let net = Net::new(plan.net.clone(), seed);
     let mut ex = Exec::new(seed, plan.policy, net);
@@ -45,7 +57,7 @@ pub fn run_zero_rtt(seed: u64, opts: &SimOpts) -> CaseOut {
         sc.transport_config(Arc::new(tc.build(CcShared::new())));
         sc
     };
-    let sc_zero = mk_server(0);
+    let sc_zero = mk_server(if rejected { 8 } else { 0 });
     let sc_open = Arc::new(mk_server(8));
     let mut cc = quinn::ClientConfig::new(Arc::new(NullClientConfig { shared: shared.clone() }));
     cc.transport_config(Arc::new(plan.tc[0].build(CcShared::new())));
@@ -55,7 +67,7 @@ pub fn run_zero_rtt(seed: u64, opts: &SimOpts) -> CaseOut {
     let cep = quinn::Endpoint::new_with_abstract_socket(endpoint_config(seed, 1), None, VSocket::bind(&ex.sh, client_addr), VRuntime::new(ex.sh.clone(), 1)).expect("client endpoint");
     let left = Arc::new(AtomicUsize::new(2));
     let key = qv::util::hash64(seed, &[b"0rtt-flow"]);
-    let bi = seed % 2 == 0;
+    let bi = seed % 2 == 0 && !rejected;
 
     // server
     {
@@ -90,7 +102,7 @@ pub fn run_zero_rtt(seed: u64, opts: &SimOpts) -> CaseOut {
                 };
                 if let OpRes::Done(Ok(v)) = data {
                     if v.len() != 3000 || payload_check(key, 0, &v).is_some() {
-                        env.violate(format!("integrity: stream opened after 0-RTT delivered {} bytes that differ from the 3000 written", v.len()));
+                        env.violate(format!("integrity: stream opened after 0-RTT{} delivered {} bytes that differ from the 3000 written", if rejected { " was rejected" } else { "" }, v.len()));
                     } else {
                         env.inc("zrtt.stream_delivered");
                     }
@@ -105,6 +117,7 @@ pub fn run_zero_rtt(seed: u64, opts: &SimOpts) -> CaseOut {
     // client
     {
         let (env, left) = (env.clone(), left.clone());
+        let shared_c = shared.clone();
         ex.sh.spawn(
             Kind::App,
             "client.main".into(),
@@ -119,6 +132,9 @@ pub fn run_zero_rtt(seed: u64, opts: &SimOpts) -> CaseOut {
                 c1.close(0u32.into(), b"");
                 drop(c1);
                 env.sleep_ns(1_000_000_000).await;
+                if rejected {
+                    *shared_c.accept_early.lock().unwrap() = false;
+                }
                 let connecting = cep.connect_with(cc, server_addr, "srv").expect("connect 2");
                 let c2 = match connecting.into_0rtt() {
                     Ok(c) => c,
@@ -128,6 +144,57 @@ pub fn run_zero_rtt(seed: u64, opts: &SimOpts) -> CaseOut {
                     }
                 };
                 env.inc("zrtt.into_0rtt_ok");
+                if rejected {
+                    // an early stream, written before the handshake completes
+                    let mut early = match env.op(OpKind::OpenUni, ck(1, 0), None, None, c2.open_uni()).await {
+                        OpRes::Done(Ok(s)) => s,
+                        _ => {
+                            env.harness_error("open_uni on the 0-RTT connection did not complete".into());
+                            return;
+                        }
+                    };
+                    let _ = env.op(OpKind::WriteAll, ck(1, 0), None, None, early.write_all(b"early data that the server will refuse")).await;
+                    env.sleep_ns(800_000_000).await;
+                    match early.write(b"x").await {
+                        Err(quinn::WriteError::ZeroRttRejected) => env.inc("zrtt.rejection_seen"),
+                        other => {
+                            env.harness_error(format!("early data was not rejected: {other:?}"));
+                            return;
+                        }
+                    }
+                    let mut fresh = match env.op(OpKind::OpenUni, ck(1, 0), None, None, c2.open_uni()).await {
+                        OpRes::Done(Ok(s)) => s,
+                        _ => {
+                            env.violate("open_uni after the 0-RTT rejection failed".into());
+                            return;
+                        }
+                    };
+                    if fresh.id() == early.id() {
+                        env.inc("zrtt.fresh_stream_reuses_early_id");
+                    }
+                    let mut buf = vec![0u8; 3000];
+                    payload_fill(key, 0, &mut buf);
+                    if !matches!(env.op(OpKind::WriteAll, ck(1, 0), None, None, fresh.write_all(&buf[..1200])).await, OpRes::Done(Ok(()))) {
+                        env.violate("first write on the stream opened after the 0-RTT rejection failed".into());
+                    }
+                    // the stale handle of the rejected stream goes away in the middle of the message
+                    drop(early);
+                    env.sleep_ns(50_000_000).await;
+                    match env.op(OpKind::WriteAll, ck(1, 0), None, None, fresh.write_all(&buf[1200..])).await {
+                        OpRes::Done(Ok(())) => {}
+                        OpRes::Done(Err(e)) => env.violate(format!("write on the fresh stream failed with {e:?} after the stale handle of the rejected early stream (same id) was dropped")),
+                        OpRes::Cancelled => {}
+                    }
+                    let _ = fresh.finish();
+                    let _ = env.op(OpKind::Stopped, ck(1, 0), None, None, fresh.stopped()).await;
+                    c2.close(1u32.into(), b"");
+                    drop(fresh);
+                    drop(c2);
+                    let _ = env.op(OpKind::WaitIdle, usize::MAX, None, None, cep.wait_idle()).await;
+                    drop(cep);
+                    left.fetch_sub(1, Ordering::SeqCst);
+                    return;
+                }
                 // remembered limit is zero: this open can only complete once the handshake raises it
                 let mut send = if bi {
                     let mut op = env.op(OpKind::OpenBi, ck(1, 0), None, None, c2.open_bi());
@@ -195,7 +262,7 @@ pub fn run_zero_rtt(seed: u64, opts: &SimOpts) -> CaseOut {
     if !st.harness_err.is_empty() {
         out.inconclusive = Some(format!("harness error: {}", st.harness_err.join(" | ")));
     }
-    out.sample = Some(json!({"scripted": "zero_rtt_open", "seed": seed, "dir": if bi { "bi" } else { "uni" }, "end": format!("{end:?}"), "task_polls": ex.stats.polls}));
+    out.sample = Some(json!({"scripted": if rejected { "zero_rtt_rejected" } else { "zero_rtt_open" }, "seed": seed, "dir": if bi { "bi" } else { "uni" }, "end": format!("{end:?}"), "task_polls": ex.stats.polls}));
     if opts.trace {
         out.trace = Some(env.trace.lock().unwrap().clone());
     }
